@@ -540,6 +540,10 @@ def gen_run(r, cfg):
         if f == "unit_pow":
             fop["p"] = r.choice([2, -1, 0.5, 3])
         follows.append(fop)
+    if late is not None and follows and r.random() < 0.6:
+        # the object predates the last registry edit: convert it to ITS OWN spelling (resolved against the
+        # table as it is now) - the one conversion where a stale cached unit gives factor 1
+        follows[0] = {"k": "follow", "f": r.choice(["to", "to", "convert"]), "first": r.choice(["orig", "rest"]), "u": unit}
     extra = []
     if r.random() < cfg.get("p_pre", 0.0):
         # warm the original's memo layers before it is persisted (string cache, lru rules)
@@ -547,8 +551,10 @@ def gen_run(r, cfg):
         if not custom:
             pool = [t for t in pool if "code_" not in t] or [unit]
         extra.append({"k": "pre_follow", "f": "to", "u": r.choice(pool + [unit])})
-    if custom and route not in ("str", "repr", "savetxt") and rt["chaos"] not in ("fresh_process", "new_interpreter") \
-            and r.random() < cfg.get("p_post", 0.0):
+    # (not for the shallow-copy routes: there the two lineages share one table by construction, and what an edit
+    # through one handle does to the other handle is C12's subject - see its known finding on the id memo)
+    if custom and route not in ("str", "repr", "savetxt", "copy", "method_copy", "unitcopy") \
+            and rt["chaos"] not in ("fresh_process", "new_interpreter") and r.random() < cfg.get("p_post", 0.0):
         toks = [t for t in rw_tokens(unit) if t != "sqrt"]
         if toks:
             t = r.choice(toks)
